@@ -51,6 +51,11 @@ func verifyFunc(prog *Program, key string, fc *FuncContract) *funcResult {
 		res.Notes = append(res.Notes, fmt.Sprintf("loop %d: head b%d at %s", li.ord, li.head, prog.SSA.Fset.Position(li.minPos)))
 	}
 	res.Blocks = len(fn.Blocks)
+	for label, errs := range tr.checkNowhere {
+		if !tr.checkStated[label] {
+			res.Errs = append(res.Errs, fmt.Sprintf("contract-binding: check [%s] of %s cannot be stated at any return: %s", label, key, strings.Join(errs, "; ")))
+		}
+	}
 	for i, a := range fc.Asserts {
 		if !tr.assertBound[i] {
 			res.Errs = append(res.Errs, fmt.Sprintf("contract-binding: %s has no statement `%s` for its assert", key, a.Text))
